@@ -1,6 +1,8 @@
 package utils
 
 import (
+	"sync"
+
 	verif "github.com/zishang520/engine.io/v2/internal/zzverif"
 )
 
@@ -53,4 +55,66 @@ func VerifH_C20_yeast_encode() {
 	if len(a) > 0 {
 		verif.Assert(urlSafe(a[verif.Int(0, len(a)-1)]), "URL-safe alphabet")
 	}
+}
+
+// yeast under concurrent use: two goroutines calling Yeast at the same instant never get
+// the same value.  Symbolically the scheduler may preempt a goroutine at each of its
+// atomic operations (up to 2 preemptions); natively the same property is stressed.
+func VerifH_C20_yeast_concurrent() {
+	if !verif.Symbolic() {
+		for round := 0; round < 3000; round++ {
+			y := NewYeast()
+			var a, b string
+			var wg sync.WaitGroup
+			start := make(chan struct{})
+			wg.Add(2)
+			go func() { defer wg.Done(); <-start; a = y.Yeast() }()
+			go func() { defer wg.Done(); <-start; b = y.Yeast() }()
+			close(start)
+			wg.Wait()
+			if a == b {
+				verif.Assert(false, "concurrent calls return different values")
+				return
+			}
+		}
+		return
+	}
+	y := NewYeast()
+	var a, b string
+	verif.PreemptBudget(2)
+	go func() { a = y.Yeast() }()
+	go func() { b = y.Yeast() }()
+	verif.Settle()
+	verif.PreemptBudget(0)
+	verif.Assert(a != "" && b != "", "both calls returned")
+	verif.Assert(a != b, "concurrent calls return different values")
+}
+
+// base64 ids under concurrent use: two goroutines get different ids (preemption at the
+// atomic counter symbolically; stress natively).
+func VerifH_C20_base64id_concurrent() {
+	if !verif.Symbolic() {
+		for round := 0; round < 2000; round++ {
+			var a, b string
+			var wg sync.WaitGroup
+			wg.Add(2)
+			go func() { defer wg.Done(); a, _ = Base64Id().GenerateId() }()
+			go func() { defer wg.Done(); b, _ = Base64Id().GenerateId() }()
+			wg.Wait()
+			if a == b {
+				verif.Assert(false, "concurrent ids differ")
+				return
+			}
+		}
+		return
+	}
+	g := &base64Id{}
+	g.sequenceNumber.Store(verif.Uint64())
+	var a, b string
+	verif.PreemptBudget(2)
+	go func() { a, _ = g.GenerateId() }()
+	go func() { b, _ = g.GenerateId() }()
+	verif.Settle()
+	verif.PreemptBudget(0)
+	verif.Assert(len(a) == 24 && len(b) == 24 && a != b, "concurrent ids differ")
 }
